@@ -17,7 +17,7 @@ func init() {
 		explanation: "Re-parse equality of formatted output and idempotence of formatting are NOT decided (the pending-whitespace machine's behaviour depends on the whole call history). Decided are the mechanisms that make formatting layout-only: " +
 			"R6.1 configuration reaches only whitespace and the statement ';': the writer's configuration and pending state are read only by *CodeWriter methods (no node printer can branch on them); every append to the output buffer is classified, and an append that is control-dependent on configuration or pending state writes whitespace by construction (a pending element — only ' ', '\\n', '\\t' are ever queued —, the indent string — whose producers yield spaces or a tab —, a whitespace constant), or is the ';' of the semicolon writer, or is comment replay (C15); text handed in by the printers is appended independently of configuration; " +
 			"R6.2 omitting semicolons is safe only if no statement can continue the previous line: for every statement list, the lexemes that can start a statement are intersected with the tokens that continue an expression after a line break (infix entries, backtick), and a keyword written after a child statement needs that child to end in ';' or '}' (genuine defects found here are listed as known findings); " +
-			"R6.3 a post-pass over the emitted text must not rewrite the lines of a multi-line literal (known finding: trailing spaces inside a backtick literal are trimmed); " +
+			"R6.3 a post-pass over the emitted text must not rewrite the lines of a multi-line literal (known finding: trailing spaces inside a backtick literal are trimmed), and it returns the text trimmed at its end (line breaks replayed in front of the end of the input would otherwise make the output differ from its own re-formatting); " +
 			"R6.4 in both pretty modes no two adjacent lexemes fuse (= R1.2 restricted to pretty output), so pretty and compact output lex to the same token sequence; " +
 			"R6.5 the flush of pending layout leaves nothing pending on any return (cleared, or found empty), so layout cannot be replayed in front of a later write; " +
 			"R6.6 the separator check hands the comments of a consumed ';' on to the following token (the no-semicolon printer places the restored ';' behind the comments of the statement it protects, so a second formatting would lose them otherwise).",
@@ -42,7 +42,7 @@ func runC06(c *Ctx) {
 	c.floor(8)
 	ruleNoSemiHazards(c, t, g)
 
-	c.rule("R6.3", "post-passes over the emitted text do not rewrite lines of multi-line literals")
+	c.rule("R6.3", "post-passes over the emitted text do not rewrite lines of multi-line literals, and leave no layout at the end of the text")
 	c.floor(1)
 	rulePostPass(c, t)
 
@@ -1112,6 +1112,45 @@ func rulePostPass(c *Ctx, t *tables) {
 		}
 		passes = append(passes, cal)
 	})
+	// the post-pass leaves no layout at the end of the text: the replay of blank lines in front of the end of the input
+	// writes line breaks directly, so without a final trim `a⏎⏎` formats to `a;⏎` and that to `a;` (not byte-stable)
+	for _, pass := range passes {
+		nr := 0
+		allInstrs(pass, func(_ *ssa.BasicBlock, _ int, in ssa.Instruction) {
+			ret, ok := in.(*ssa.Return)
+			if !ok || len(ret.Results) != 1 {
+				return
+			}
+			nr++
+			trimmed := false
+			if call, ok := unwrapDeferResult(ret.Results[0]).(*ssa.Call); ok {
+				cal := call.Call.StaticCallee()
+				switch {
+				case extFuncIs(cal, "strings", "TrimSpace"):
+					trimmed = true
+				case extFuncIs(cal, "strings", "TrimRight"), extFuncIs(cal, "strings", "Trim"):
+					if k, ok := call.Call.Args[1].(*ssa.Const); ok && k.Value != nil && k.Value.Kind() == constant.String && strings.Contains(constant.StringVal(k.Value), "\n") {
+						trimmed = true
+					}
+				}
+			}
+			// … or the text is trimmed before it is split into the lines that are joined again (R8.6: the very slice)
+			if !trimmed {
+				allInstrs(pass, func(_ *ssa.BasicBlock, _ int, in2 ssa.Instruction) {
+					sp, ok := in2.(*ssa.Call)
+					if !ok || !extFuncIs(sp.Call.StaticCallee(), "strings", "Split") {
+						return
+					}
+					if tr, ok := sp.Call.Args[0].(*ssa.Call); ok && extFuncIs(tr.Call.StaticCallee(), "strings", "TrimSpace") && tr.Call.Args[0] == ssa.Value(pass.Params[0]) {
+						if jn, ok := unwrapDeferResult(ret.Results[0]).(*ssa.Call); ok && extFuncIs(jn.Call.StaticCallee(), "strings", "Join") {
+							trimmed = true
+						}
+					}
+				})
+			}
+			c.check(trimmed, fmt.Sprintf("%s: return #%d trims the end of the text", pass.Name(), nr), ret.Pos(), "the result is strings.TrimSpace(…) (or a right trim that includes line breaks), or the lines joined were split from the trimmed text", "the post-pass returns the text without trimming its end: trailing line breaks written for blank lines before the end of the input stay in the output, and formatting that output again drops them (the formatted text is not a fixed point)")
+		})
+	}
 	// multi-line literal classes: token classes whose scanner can copy a line break into the literal
 	lf := c.lexFacts()
 	type mlClass struct {
